@@ -78,6 +78,10 @@ CLAIMED = {
    'has iterated or size-tested both inputs (items, ops), the Shell escaper opens/closes/escapes, revision->renderer dispatch '
    'and the stub revision constants agree. Does NOT decide what a real shell does with the text.', 'DESIGN.md section 5 C15',
    note='Known findings (render_fish / render_simple never emit requested shell completers) are listed in known_findings.json.'),
+ 'C16': C('taint chain through both HTML replacements, per-Block tag tables from decoded constants, BlockStart/BlockEnd pairing by must-pass-through, escaper arm tables (byte tests) and line-start guard control dependence, interprocedural constant-argument census for unescaped roff source, section-walk rules',
+   'Decides (docgen builds): the only dynamic text render_html appends is a chunk escaped for both < and >; tags opened per Block are closed by its BlockEnd arm and change_style nests correctly; every BlockStart is closed on all paths; '
+   'the roff Spaces rule neutralises space AND newline, the Special rules write \\& at line start before . or \', at_line_start is tracked; unescaped roff source is constant at every call site; extract_sections records the level and '
+   'descends into every HelpItem::Command of the raw item list; html/markdown/manpage reuse the --help pipeline. Does NOT decide full roff/markdown correctness.', 'DESIGN.md section 5 C16'),
  'C18': C('who-may-call census incl. fn-item references, name provenance, precedence by edge-restricted reachability, single-conversion join',
    'Decides: std::env is used only at the listed sites with names from the declared env list; the flag/argument consumers consult the command line on every path and the environment only on '
    'the absent edge; env and command-line values share the one parse_os_str conversion; both-absent exits build Missing/NoEnv which are catchable. Does NOT decide wrapper behaviour (C06).', 'DESIGN.md section 5 C18'),
